@@ -18,6 +18,10 @@ func main() {
 		fmt.Println(err)
 		os.Exit(1)
 	}
+	if len(os.Args) == 3 && os.Args[1] == "-calls" {
+		grepCalls(p, os.Args[2])
+		return
+	}
 	for i := 1; i+1 < len(os.Args); i += 2 {
 		f := p.Func(os.Args[i], os.Args[i+1])
 		if f == nil {
